@@ -668,3 +668,10 @@ def _fn_call(it, st, args, ctx):
     clo = args[0]
     tup = args[1]
     return it.call_closure(st, clo, list(tup.fields), ctx)
+
+
+@summary(r'^<(u8|u16|u32|u64|u128|usize) as (std::ops::)?(Div|Rem)(<.*>)?>::(div|rem)$')
+def _int_div_trait(it, st, args, ctx):
+    a, b = deref(it, st, args[0]), deref(it, st, args[1])
+    r = z3.UDiv(a, b) if ctx.callee.endswith('div') else z3.URem(a, b)
+    return _panic_fork(it, st, b != 0, r, 'attempt to divide by zero', ctx)
